@@ -420,6 +420,20 @@ def setup(case, ctx, after_build=None):
     return s
 
 
+def then_again(s, case, ctx, checks):
+    """Run ``checks`` now and, when the case has a ``then`` operation (a move of the base or a change of tool), once
+    more after it with the SAME joint vector and inputs: the Jacobian maps are functions of the arm as it is now."""
+    checks()
+    op = case.get("then")
+    if op is None:
+        return
+    _apply_prep(s.arm, s.model, [op], ctx, s.state)
+    ctx.label("asked again after a later " + ("move" if op["op"] == "move" else "tool change"))
+    s.J, s.T = ref_space_jacobian(s.arm, s.theta)
+    sut(s.arm.FK, s.other.copy())
+    checks()
+
+
 def rt(s, base=RTOL):
     """Relative tolerance: the property's, or 5e-6 per joint value inside the NearZero band."""
     return max(base, LOOSE * s.band) if s.band else base
@@ -528,6 +542,10 @@ def c_numerical(case, ctx):
     compare(got, s.J, rt(s, RTOL_NUM), "numericalJacobian(theta) vs d FK/d theta")
     J = as_mat(sut(arm.jacobian, th.copy()), (6, n), "jacobian(theta)")
     compare(got, J, rt(s, RTOL_NUM), "numericalJacobian(theta) vs jacobian(theta)", scale=fro(s.J))
+    # the joint vector left out: the arm's stored configuration (put there by FK(theta))
+    sut(arm.FK, th.copy())
+    got0 = as_mat(sut(arm.numericalJacobian), (6, n), "numericalJacobian()")
+    compare(got0, s.J, rt(s, RTOL_NUM), "numericalJacobian() at the stored configuration vs d FK/d theta")
 
 
 def c_velocity(case, ctx):
@@ -578,6 +596,10 @@ def c_statics(case, ctx):
     Wobj, W = _make_wrench(case["wrench"])
     ctx.label("wrench " + case["wrench"]["kind"])
     qd = np.array(case["qdot"], dtype=float)[:n]
+    then_again(s, case, ctx, lambda: _statics_checks(s, arm, th, n, Wobj, W, qd))
+
+
+def _statics_checks(s, arm, th, n, Wobj, W, qd):
     want = (s.J.T @ W).reshape(n, 1)
     wn = max(1.0, float(np.linalg.norm(W)))
     scale = fro(s.J) * wn
@@ -608,12 +630,16 @@ def c_statics_inv(case, ctx):
     arm, th, n = s.arm, s.theta, s.n
     if n < 6:
         ctx.skip("n < 6: J^T has a null space, the wrench is not determined by the torques")
+    Wobj, W = _make_wrench(case["wrench"])
+    then_again(s, case, ctx, lambda: _statics_inv_checks(s, arm, th, n, Wobj, W, ctx))
+
+
+def _statics_inv_checks(s, arm, th, n, Wobj, W, ctx):
     sv = np.linalg.svd(s.J, compute_uv=False)
     smin = float(sv[-1])
     ctx.label("sigma_min 1e%d" % (math.floor(math.log10(smin)) if smin > 0 else -99))
     if smin < 1e-3:
         ctx.skip("sigma_min(J) < 1e-3: outside 'wherever the Jacobian has full rank'")
-    Wobj, W = _make_wrench(case["wrench"])
     cond = float(sv[0]) / smin
     wn = float(np.linalg.norm(W))
     tau = as_mat(sut(arm.staticForces, Wobj, th.copy()), (n, 1), "staticForces(W, theta)")
@@ -778,9 +804,9 @@ CLAUSES = [
     Clause("numerical_jacobian_matches", c_numerical, cases(), 260, 4000),
     Clause("velocity_is_jacobian_times_rates", c_velocity, cases(_QD), 260, 4000),
     Clause("statics_is_transpose_power_identity", c_statics,
-           cases({"qdot": _vecn(10.0), "wrench": wrench_inputs()}), 300, 5000),
+           cases({"qdot": _vecn(10.0), "wrench": wrench_inputs(), "then": st.one_of(st.none(), st.none(), _move_op(), _sethome_op())}), 300, 5000),
     Clause("statics_inverse_recovers_wrench", c_statics_inv,
-           cases({"wrench": wrench_inputs(), "theta_mode": st.just("generic")}, theta=generic_theta_codes(),
+           cases({"wrench": wrench_inputs(), "theta_mode": st.just("generic"), "then": st.one_of(st.none(), st.none(), _move_op(), _sethome_op())}, theta=generic_theta_codes(),
                  specs=st.one_of(arm_specs(nmin=6, nmax=7, limits="default"), arm_specs(nmin=6, nmax=7))), 260, 4000),
     Clause("statics_with_link_masses", c_link_masses,
            cases({"wrench": wrench_inputs(), "mass": mass_inputs()}), 320, 5000,
